@@ -28,6 +28,10 @@ def gen_cases(tier, seed):
     for n in range(0, N + 1):
         cases.append({"kind": "split", "n": n, "fracs": fr, "seeds": [seed, seed + 1]})
         cases.append({"kind": "loader", "n": n})
+    if tier == "quick":
+        for n in (17, 20, 23, 31, 32, 37, 40, 50, 100):      # beyond the exhaustive part: larger datasets on a coarser grid
+            cases.append({"kind": "split", "n": n, "fracs": [0.0, 0.05, 0.2, 0.25, 0.45, 0.5, 0.7, 0.85, 0.95, 1.0], "seeds": [seed]})
+            cases.append({"kind": "loader", "n": n})
     cases.append({"kind": "onehot", "seed": seed, "count": 60 if tier == "quick" else 600})
     return cases
 
@@ -202,11 +206,14 @@ def run_case(ns, ctx, case):
         counters["loader_configs"] = evals
     else:
         rng = random.Random(case["seed"])
-        pools = [list(range(-3, 8)), [0.5, 1.5, -2.25, 3.0, 10.0], ["a", "b", "zz", "c", "B"], [10, 20, 40, 70], [3, 1, 2]]
+        pools = [list(range(-3, 8)), [0.5, 1.5, -2.25, 3.0, 10.0], ["a", "b", "zz", "c", "B"], [10, 20, 40, 70], [3, 1, 2], [-1, 1], [-2, 0, 2], [-1, 0, 2],
+                 [-3, -1], [0, 1, 2]]
         for k in range(case["count"]):
             pool = pools[k % len(pools)]
             m = rng.randint(0, 9)
             labels = [rng.choice(pool) for _ in range(m)]
+            if k % 7 == 0 and len(pool) <= 3:
+                labels = list(pool) + labels             # make sure every label of a small pool occurs
             viol += check_onehot(ns, labels)
             evals += 1
             if len(set(labels)) >= 2:
